@@ -118,4 +118,145 @@ theorem u64LessThan_fuel_mono {f f' : Nat} {m : UInt64} {g : Rng} {r : UInt64 ×
   · rename_i h1; rw [if_neg h1] at h; exact h
 
 
+
+/-! ### Signed and inclusive ranges -/
+
+theorem asU64_toNat {i : Int} (h0 : 0 ≤ i) (h1 : i < 2 ^ 64) : (asU64 i).toNat = i.toNat := by
+  unfold asU64
+  have : i % 2 ^ 64 = i := Int.emod_eq_of_lt h0 h1
+  rw [this]
+  apply toNat_ofNat_lt
+  omega
+
+theorem i64LessThan_range {fuel : Nat} {m : Int} {g g' : Rng} {v : Int}
+    (h : i64LessThan fuel m g = some (v, g')) (h0 : 0 < m) (h1 : m < 2 ^ 63) : 0 ≤ v ∧ v < m := by
+  unfold i64LessThan at h
+  rw [Option.map_eq_some_iff] at h
+  obtain ⟨⟨u, g1⟩, hu, he⟩ := h
+  simp only [Prod.mk.injEq] at he
+  have hm : (asU64 m).toNat = m.toNat := asU64_toNat (by omega) (by omega)
+  have hpos : 0 < asU64 m := by rw [UInt64.lt_iff_toNat_lt, hm]; show 0 < m.toNat; omega
+  have hlt := u64LessThan_lt hu hpos
+  rw [UInt64.lt_iff_toNat_lt, hm] at hlt
+  have : u.toNat < 2 ^ 63 := by omega
+  rw [← he.1]
+  unfold asI64
+  rw [if_pos this]
+  omega
+
+/-- Range of `i64_in_range`: every returned value lies in `[min, max]`. -/
+theorem i64InRange_range {fuel : Nat} {a b : Int} {g g' : Rng} {v : Int}
+    (h : i64InRange fuel a b g = some (v, g')) : a ≤ v ∧ v ≤ b := by
+  unfold i64InRange at h
+  split at h
+  · split at h
+    · rename_i hab hov
+      rw [Option.map_eq_some_iff] at h
+      obtain ⟨⟨w, g1⟩, hw, he⟩ := h
+      simp only [Prod.mk.injEq] at he
+      have := i64LessThan_range hw (by omega) hov.2
+      omega
+    · simp at h
+  · simp at h
+
+/-- `i64_in_range` panics exactly on a failed assert or an `i64` overflow of `max + 1 - min`;
+apart from that it fails only if the bounded draw ran out of fuel. -/
+theorem i64InRange_eq_none_iff {fuel : Nat} {a b : Int} {g : Rng} :
+    i64InRange fuel a b g = none ↔
+      ¬ (a < b ∧ b + 1 < 2 ^ 63 ∧ b + 1 - a < 2 ^ 63) ∨ u64LessThan fuel (asU64 (b + 1 - a)) g = none := by
+  unfold i64InRange i64LessThan
+  by_cases h1 : a < b
+  · by_cases h2 : b + 1 < 2 ^ 63 ∧ b + 1 - a < 2 ^ 63
+    · rw [if_pos h1, if_pos h2, Option.map_eq_none_iff, Option.map_eq_none_iff]
+      constructor
+      · intro h; exact Or.inr h
+      · rintro (h | h)
+        · exact absurd ⟨h1, h2.1, h2.2⟩ h
+        · exact h
+    · rw [if_pos h1, if_neg h2]
+      constructor
+      · intro _; exact Or.inl (fun h => h2 ⟨h.2.1, h.2.2⟩)
+      · intro _; rfl
+  · rw [if_neg h1]
+    constructor
+    · intro _; exact Or.inl (fun h => h1 h.1)
+    · intro _; rfl
+
+theorem u64InRange_range {fuel : Nat} {a b : UInt64} {g g' : Rng} {v : UInt64}
+    (h : u64InRange fuel a b g = some (v, g')) : a ≤ v ∧ v ≤ b := by
+  unfold u64InRange at h
+  split at h
+  · split at h
+    · rename_i hab hov
+      rw [Option.map_eq_some_iff] at h
+      obtain ⟨⟨w, g1⟩, hw, he⟩ := h
+      simp only [Prod.mk.injEq] at he
+      rw [UInt64.lt_iff_toNat_lt] at hab
+      have hb := b.toNat_lt
+      have hspan : (b + 1 - a).toNat = b.toNat + 1 - a.toNat := by
+        rw [UInt64.toNat_sub, UInt64.toNat_add]
+        have : (1 : UInt64).toNat = 1 := rfl
+        rw [this, Nat.mod_eq_of_lt hov]
+        omega
+      have hlt := u64LessThan_lt hw (by rw [UInt64.lt_iff_toNat_lt, hspan]; show 0 < _; omega)
+      rw [UInt64.lt_iff_toNat_lt, hspan] at hlt
+      rw [← he.1, UInt64.le_iff_toNat_le, UInt64.le_iff_toNat_le, UInt64.toNat_add]
+      have : (a.toNat + w.toNat) % 2 ^ 64 = a.toNat + w.toNat := Nat.mod_eq_of_lt (by omega)
+      rw [this]
+      omega
+    · simp at h
+  · simp at h
+
+/-! ### Sequences of draws -/
+
+theorem drawN_length {β : Type} (f : Rng → β × Rng) (n : Nat) (g : Rng) : (drawN f n g).1.length = n := by
+  induction n generalizing g with
+  | zero => rfl
+  | succ k ih => simp [drawN, ih]
+
+theorem drawN?_spec {β : Type} {f : Rng → Option (β × Rng)} {P : β → Prop}
+    (hf : ∀ g x g', f g = some (x, g') → P x) {n : Nat} {g g' : Rng} {xs : List β}
+    (h : drawN? f n g = some (xs, g')) : xs.length = n ∧ ∀ x ∈ xs, P x := by
+  induction n generalizing g g' xs with
+  | zero =>
+    simp only [drawN?, Option.some.injEq, Prod.mk.injEq] at h
+    rw [← h.1]; simp
+  | succ k ih =>
+    simp only [drawN?] at h
+    rw [Option.bind_eq_some_iff] at h
+    obtain ⟨⟨x, g1⟩, hx, h⟩ := h
+    rw [Option.map_eq_some_iff] at h
+    obtain ⟨⟨ys, g2⟩, hys, he⟩ := h
+    simp only [Prod.mk.injEq] at he
+    obtain ⟨hl, hall⟩ := ih hys
+    rw [← he.1]
+    refine ⟨by simp [hl], ?_⟩
+    intro y hy
+    rcases List.mem_cons.1 hy with rfl | hy
+    · exact hf _ _ _ hx
+    · exact hall y hy
+
 end Cv.Rng
+
+namespace Cv.DiscreteUniform
+open Cv.Rng
+
+/-- Range of `DiscreteUniform::sample` (integer value): within `[lower, upper]`. -/
+theorem sampleInt_range {fuel : Nat} {lo hi : Int} {g g' : Rng} {v : Int}
+    (h : sampleInt fuel lo hi g = some (v, g')) : lo ≤ v ∧ v ≤ hi := by
+  unfold sampleInt at h
+  split at h
+  · rename_i heq
+    simp only [Option.some.injEq, Prod.mk.injEq] at h
+    omega
+  · exact i64InRange_range h
+
+/-- Repaired F22: equal bounds return `lower` without touching the generator, for every fuel. -/
+theorem sampleInt_eq (fuel : Nat) (lo : Int) (g : Rng) : sampleInt fuel lo lo g = some (lo, g) := by
+  simp [sampleInt]
+
+theorem sampleIntN_spec {fuel : Nat} {lo hi : Int} {n : Nat} {g g' : Rng} {xs : List Int}
+    (h : sampleIntN fuel lo hi n g = some (xs, g')) : xs.length = n ∧ ∀ x ∈ xs, lo ≤ x ∧ x ≤ hi :=
+  drawN?_spec (P := fun x => lo ≤ x ∧ x ≤ hi) (fun _ _ _ hx => sampleInt_range hx) h
+
+end Cv.DiscreteUniform
